@@ -224,6 +224,80 @@ theorem procedure_polls_back_off (n : Nat) :
     sleepsOf (lookupLoop Backoff.nextBackoff (sched 0) n) = schedFrom 0 n :=
   ⟨by decide, by decide, by decide, lookupLoop_sleeps n 0⟩
 
+/-! ## The gap monitor decides what the statement says -/
+
+theorem gapsOk_tail (p : Nat → Nat → Bool) (g : Nat) (w : List Nat) (i : Nat)
+    (h : gapsOk p (g :: w) i = true) : gapsOk p w (i + 1) = true := by
+  simp only [gapsOk, Bool.and_eq_true] at h
+  exact h.2
+
+/-- The greedy judgement of the observed gaps answers exactly the question the property asks:
+it accepts iff **some** choice of at most `k - d` gaps to leave out (the immediate retries the
+property allows) makes every remaining gap long enough for its slot of the schedule. Neither
+direction needs anything about `p` (not even that the schedule grows). -/
+theorem greedy_decides_some_choice (p : Nat → Nat → Bool) (k : Nat) :
+    ∀ (gaps : List Nat) (i d : Nat), d ≤ k →
+      (greedyFollows p k gaps i d = true ↔
+        ∃ w : List Nat, w.Sublist gaps ∧ gaps.length ≤ w.length + (k - d) ∧ gapsOk p w i = true) := by
+  intro gaps
+  induction gaps with
+  | nil =>
+    intro i d _
+    simp only [greedyFollows, true_iff]
+    exact ⟨[], List.Sublist.refl _, by simp, rfl⟩
+  | cons g gs ih =>
+    intro i d hd
+    constructor
+    · intro h
+      unfold greedyFollows at h
+      by_cases hp : p i g = true
+      · rw [if_pos hp] at h
+        obtain ⟨w, hw, hl, hok⟩ := (ih (i + 1) d hd).1 h
+        refine ⟨g :: w, hw.cons_cons g, by simp only [List.length_cons]; omega, ?_⟩
+        simp [gapsOk, hp, hok]
+      · rw [if_neg hp] at h
+        by_cases hdk : d < k
+        · rw [if_pos hdk] at h
+          obtain ⟨w, hw, hl, hok⟩ := (ih i (d + 1) (by omega)).1 h
+          exact ⟨w, hw.cons g, by simp only [List.length_cons]; omega, hok⟩
+        · rw [if_neg hdk] at h
+          exact absurd h (by simp)
+    · rintro ⟨w, hw, hl, hok⟩
+      unfold greedyFollows
+      by_cases hp : p i g = true
+      · rw [if_pos hp]
+        refine (ih (i + 1) d hd).2 ?_
+        cases hw with
+        | cons _ hw' =>
+          -- the witness leaves `g` out although it would do: leave out its first kept gap instead
+          cases w with
+          | nil => exact ⟨[], List.nil_sublist _, by simp only [List.length_cons, List.length_nil] at hl ⊢; omega, rfl⟩
+          | cons x w' =>
+            refine ⟨w', (List.sublist_cons_self x w').trans hw', ?_, gapsOk_tail p x w' i hok⟩
+            simp only [List.length_cons] at hl ⊢
+            omega
+        | cons_cons _ hw' =>
+          rename_i w'
+          refine ⟨w', hw', by simp only [List.length_cons] at hl ⊢; omega, ?_⟩
+          exact gapsOk_tail p g w' i hok
+      · rw [if_neg hp]
+        cases hw with
+        | cons _ hw' =>
+          have hdk : d < k := by
+            simp only [List.length_cons] at hl
+            have := hw'.length_le
+            omega
+          rw [if_pos hdk]
+          exact (ih i (d + 1) (by omega)).2 ⟨w, hw', by simp only [List.length_cons] at hl ⊢; omega, hok⟩
+        | cons_cons _ hw' =>
+          simp only [gapsOk, Bool.and_eq_true] at hok
+          exact absurd hok.1 hp
+
+/-- non-vacuity: a loaded machine's slow immediate retry (14.9 ms) followed by the schedule's waits
+is accepted with two gaps to spare, a third short gap is not -/
+example : greedyFollows (fun i g => g ≥ 16 * 2 ^ i) 2 [14, 16, 34, 64] 0 0 = true ∧
+    greedyFollows (fun i g => g ≥ 16 * 2 ^ i) 2 [1, 1, 1, 16] 0 0 = false := by decide
+
 /-- What a final answer means for the caller. -/
 def ProcAns.result : ProcAns → ProcRes
   | .finished => .ok | .exception => .procException | .notFound => .notFound | .running => .exhausted
